@@ -118,12 +118,14 @@ def main():
                 print(name, "clean", m.get("demo_on_clean_tree_rc"), "changed", m.get("demo_on_changed_tree_rc"), m.get("repo_tests"),
                       {c: (v["caught"], v["mechanisms"][:3]) for c, v in m["checks"].items()})
     elif cmd == "rerun":
-        sub = sys.argv[2] if len(sys.argv) > 2 else ""
+        sub = sys.argv[2] if len(sys.argv) > 2 and not sys.argv[2].startswith("--") else ""
+        extra = sys.argv[sys.argv.index("--checks") + 1].split(",") if "--checks" in sys.argv else []
         for name in sorted(os.listdir(os.path.join(HERE, "seeded"))):
             d = os.path.join(HERE, "seeded", name)
             if sub in name and os.path.exists(os.path.join(d, "meta.json")):
                 meta = json.load(open(os.path.join(d, "meta.json")))
                 checks = list(meta.get("checks", {})) or [meta["property"]]
+                checks += [c for c in extra if c not in checks]
                 m = evaluate(d, meta["property"], checks, confirm=False)
                 print(name, {c: (v["caught"], v["mechanisms"][:3]) for c, v in m["checks"].items()})
 
